@@ -101,10 +101,14 @@ Definition wf_request (a : api) (d : desc) (o : opdesc) (rq : request) : bool :=
   accept_ok (rt_produces (route_of a d o)) (rq_accept rq).
 
 (* the answer a well-formed request deserves: the handler ran, the response is in a format the route produces, written
-   by the producer of that format *)
+   by the producer of that format. The answer to HEAD: the handler ran, the announced format is one the route produces
+   (if it produces anything), and NO body was written *)
 Definition response_ok (a : api) (d : desc) (o : opdesc) (rs : result) : bool :=
-  Nat.eqb (rs_outcome rs) 0 && mem_bytes (rs_ctype rs) (rt_produces (route_of a d o)) &&
-  bytes_eqb (rs_producer rs) (normalize_offer (rs_ctype rs)).
+  if is_head o
+  then Nat.eqb (rs_outcome rs) 0 && is_nil (rs_producer rs) &&
+       (is_nil (rt_produces (route_of a d o)) || mem_bytes (rs_ctype rs) (rt_produces (route_of a d o)))
+  else Nat.eqb (rs_outcome rs) 0 && mem_bytes (rs_ctype rs) (rt_produces (route_of a d o)) &&
+       bytes_eqb (rs_producer rs) (normalize_offer (rs_ctype rs)).
 
 Definition result_eqb (x y : result) : bool :=
   Nat.eqb (rs_outcome x) (rs_outcome y) && bytes_eqb (rs_ctype x) (rs_ctype y) && bytes_eqb (rs_producer x) (rs_producer y).
